@@ -481,6 +481,8 @@ def gen_cases(rng, tier, vals, flag):
                     sizes = [0]
                     if op in ("iter", "nziter") and t["kind"] in ("gfq", "id"):
                         sizes = [0, (max(2, q // 2) if q else 1000), (q if q else 2**31 + 11)]
+                        if t["kind"] == "id":   # sampling sizes above 2^32 (multiples of 2^32 included): the modulus of the draw is the WHOLE size, not its low word (seeded C20-m11)
+                            sizes += [2**32, 2**32 + 5, 3 * 2**32]
                     if t["kind"] == "gfq" and q == 2 and op == "nziter":
                         sizes = [0]
                     for size in sizes:
@@ -619,7 +621,7 @@ def gen_cases(rng, tier, vals, flag):
                 if t["kind"] == "gfq":
                     sizes = [0, rng.range(2, q), q, q + 1, 2 * q + 1] if q > 2 else [0, 2, 3, 5]
                 if t["kind"] == "id":
-                    sizes = [0, 1000]
+                    sizes = [0, 1000, 2**32, 2**32 + 5]
                 if t["kind"] in ("mod", "bal") and name != "mI":
                     top_ = t["rmax"] if t["rmax"] else (2**24 if name in ("f", "bf", "ef", "f_d") else 2**53)
                     sizes = sorted(set(x for x in [0, 1, 2, q - 1, q, q + 1, top_] if 0 <= x <= top_))
@@ -1032,7 +1034,11 @@ def main(tier, replay=None):
     if rc == 0 and len(pout) == len(probes):
         odd_seen = {}
         for (K, s), l in zip(probes, pout):
-            v = int(l.split(" ;")[0])
+            import re as _re
+            _m = _re.search(r"\d+", l.split(" ;")[0])      # "NONREPRO a || b": the two runs of the probe differ (a reseeded generator does not
+            if _m is None:                                  # restart its sequence); the ru/modru/rm cases below report it with the input
+                continue
+            v = int(_m.group(0))
             extra = s not in (1, 42, 2**64 - 1)
             if extra and (v % 2 == 0 or odd_seen.get(K, 0) >= 2):
                 continue            # the extra seeds only serve to find ODD draws: Montgomery moduli equal to the value about to be drawn
